@@ -452,6 +452,10 @@ func init() {
 						s.OK(key, p, "counted loop: "+why)
 						continue
 					}
+					if ok, why := searchNextLoop(c, l); ok {
+						s.OK(key, p, "search loop: "+why)
+						continue
+					}
 					if ok, why := cursorLoop(c, f, l); ok {
 						s.OK(key, p, "cursor loop: "+why)
 						continue
@@ -465,6 +469,10 @@ func init() {
 					}
 					if inv, found := tab.find(fn, text); found {
 						s.OK(key, p, "reviewed: "+inv)
+						continue
+					}
+					if inv, found := tab.find(fn, "*"); found && len(loops) == 1 {
+						s.OK(key, p, "reviewed (the only loop of the function): "+inv)
 						continue
 					}
 					s.Unknown(key, p, "loop of an unrecognised shape: termination not established")
@@ -642,6 +650,117 @@ func edgeSign(e ssa.Value, phi *ssa.Phi, depth int) int {
 	return 0
 }
 
+// searchNextLoop: for i := find(xs, a); i >= 0; i = find(xs, i+k) with k ≥ 1, where find returns a negative constant or an
+// index of xs that is not below its start argument (a counted scan from that argument): i strictly increases and stays
+// below len(xs), so the loop ends.
+func searchNextLoop(c *Ctx, l *ssaLoop) (bool, string) {
+	for b := range l.Blocks {
+		iff, ok := lastIf(b)
+		if !ok {
+			continue
+		}
+		in0, in1 := l.Blocks[b.Succs[0]], l.Blocks[b.Succs[1]]
+		if in0 == in1 {
+			continue
+		}
+		bo, ok := iff.Cond.(*ssa.BinOp)
+		if !ok {
+			continue
+		}
+		rel, ok := relOf(bo.Op, in0)
+		if !ok {
+			continue
+		}
+		phi, isPhi := bo.X.(*ssa.Phi)
+		k, isK := constInt(bo.Y)
+		if !isPhi || !isK || phi.Block() != l.Header {
+			continue
+		}
+		// continues only while phi ≥ 0
+		if !((rel == token.GEQ && k == 0) || (rel == token.GTR && k == -1)) {
+			continue
+		}
+		okAll := true
+		n := 0
+		for i, e := range phi.Edges {
+			if !l.Blocks[l.Header.Preds[i]] {
+				continue
+			}
+			n++
+			call, isCall := e.(*ssa.Call)
+			if !isCall {
+				okAll = false
+				break
+			}
+			if _, ok := indexLikeResult(c, call); !ok {
+				okAll = false
+				break
+			}
+			from, ok := scanStartParam(c, call.Common().StaticCallee())
+			if !ok || from >= len(call.Common().Args) {
+				okAll = false
+				break
+			}
+			t := termOf(call.Common().Args[from])
+			if t.base != ssa.Value(phi) || t.k < 1 {
+				okAll = false
+				break
+			}
+		}
+		if okAll && n > 0 {
+			return true, phi.Comment + " is the next match after the previous one, or negative: it increases strictly below the length of what is searched"
+		}
+	}
+	return false, ""
+}
+
+// scanStartParam: the int parameter a search function starts scanning from — its non-negative results are values of a
+// loop counter that starts at that parameter and only increases.
+func scanStartParam(c *Ctx, g *ssa.Function) (int, bool) {
+	if g == nil || len(g.Blocks) == 0 {
+		return 0, false
+	}
+	start := -1
+	for _, b := range g.Blocks {
+		ret, ok := b.Instrs[len(b.Instrs)-1].(*ssa.Return)
+		if !ok {
+			continue
+		}
+		if _, isK := constInt(ret.Results[0]); isK {
+			continue
+		}
+		phi, ok := ret.Results[0].(*ssa.Phi)
+		if !ok {
+			return 0, false
+		}
+		found := -1
+		for i, e := range phi.Edges {
+			pred := phi.Block().Preds[i]
+			if phi.Block().Dominates(pred) {
+				// back edge: counter + positive constant
+				if t := termOf(e); t.base != ssa.Value(phi) || t.k < 1 {
+					return 0, false
+				}
+				continue
+			}
+			p, isP := e.(*ssa.Parameter)
+			if !isP {
+				return 0, false
+			}
+			for j, q := range g.Params {
+				if q == p {
+					found = j
+				}
+			}
+		}
+		if found < 0 || (start >= 0 && start != found) {
+			return 0, false
+		}
+		start = found
+	}
+	return start, start >= 0
+}
+
 func countedLoop(l *ssaLoop) (bool, string) {
 	for b := range l.Blocks {
 		iff, ok := lastIf(b)
@@ -693,17 +812,20 @@ func countedLoop(l *ssaLoop) (bool, string) {
 					}
 				}
 				if okB && okS && ((sg < 0 && start >= bnd) || (sg > 0 && start <= bnd)) {
-					// step must be exactly ±1
-					unit := true
+					// one constant step on every back edge, dividing the distance: the bound is hit exactly
+					step := int64(0)
+					same := true
 					for i, e := range phi.Edges {
 						if l.Blocks[phi.Block().Preds[i]] {
-							if tt := termOf(e); tt.base != ssa.Value(phi) || (tt.k != 1 && tt.k != -1) {
-								unit = false
+							tt := termOf(e)
+							if tt.base != ssa.Value(phi) || tt.k == 0 || (step != 0 && tt.k != step) {
+								same = false
 							}
+							step = tt.k
 						}
 					}
-					if unit {
-						return true, fmt.Sprintf("%s moves by one from %d towards %d", phi.Comment, start, bnd)
+					if same && step != 0 && (bnd-start)%step == 0 {
+						return true, fmt.Sprintf("%s moves by %d from %d and hits %d exactly", phi.Comment, step, start, bnd)
 					}
 				}
 			}
@@ -918,6 +1040,15 @@ func (r *nnResult) transfer(st map[nnKey]bool, ins ssa.Instruction) {
 					continue
 				}
 			}
+			// a helper that only forwards one of its parameters as the state override of a BasicParser call
+			if j, ok := forwardsOverride(r.c, cl); ok && j < len(com.Args) {
+				if ov, ok := constInt(com.Args[j]); ok {
+					for el := range overrideNullable(r.c, ov) {
+						kill[el] = true
+					}
+					continue
+				}
+			}
 			sum := e.Sum(cl)
 			if sum == nil {
 				continue
@@ -946,6 +1077,112 @@ func (r *nnResult) transfer(st map[nnKey]bool, ins ssa.Instruction) {
 	}
 }
 
+// forwardsOverride: a small module function whose only mutating call is one BasicParser call whose state override is
+// one of the function's own parameters; returns that parameter's index.
+func forwardsOverride(c *Ctx, f *ssa.Function) (int, bool) {
+	if f == nil || len(f.Blocks) == 0 || len(f.Blocks) > 4 || !c.P.InModule(f) {
+		return 0, false
+	}
+	e := BuildEff(c)
+	idx, n := -1, 0
+	for _, b := range f.Blocks {
+		for _, ins := range b.Instrs {
+			ci, ok := ins.(ssa.CallInstruction)
+			if !ok {
+				continue
+			}
+			com := ci.Common()
+			if _, isB := com.Value.(*ssa.Builtin); isB {
+				continue
+			}
+			name := ""
+			if cl := com.StaticCallee(); cl != nil {
+				name = cl.Name()
+			} else if com.IsInvoke() {
+				name = com.Method.Name()
+			}
+			if name == "BasicParser" {
+				n++
+				p, isP := com.Args[len(com.Args)-1].(*ssa.Parameter)
+				if !isP {
+					return 0, false
+				}
+				for i, q := range f.Params {
+					if q == p {
+						idx = i
+					}
+				}
+				continue
+			}
+			for _, cl := range c.P.Callees(f, ci) {
+				if sum := e.Sum(cl); sum == nil || len(sum.Mut) > 0 {
+					return 0, false
+				}
+			}
+		}
+	}
+	return idx, n == 1 && idx >= 0
+}
+
+// nnEntryFacts: what is known non-nil on entry to an unexported function that is only ever called statically — the
+// components that are non-nil at every one of its call sites (of the object handed in as the same parameter).
+var nnInProgress = map[*ssa.Function]bool{}
+
+func nnEntryFacts(c *Ctx, f *ssa.Function) map[nnKey]bool {
+	out := map[nnKey]bool{}
+	ix := sitesOf(c)
+	if f.Parent() != nil || ix.taken[f] || len(ix.sites[f]) == 0 || (f.Object() != nil && f.Object().Exported()) {
+		return out
+	}
+	if nnInProgress[f] || len(nnInProgress) > 3 {
+		return out
+	}
+	nnInProgress[f] = true
+	defer delete(nnInProgress, f)
+	first := true
+	for _, cs := range ix.sites[f] {
+		if nnInProgress[cs.Fn] {
+			return map[nnKey]bool{}
+		}
+		ra := nonNilAnalysis(c, cs.Fn)
+		idx := -1
+		for i, ins := range cs.Call.Block().Instrs {
+			if ins == ssa.Instruction(cs.Call) {
+				idx = i
+			}
+		}
+		if idx < 0 || !Facts(c, cs.Fn).Reachable(cs.Call.Block()) {
+			continue
+		}
+		st := ra.at(cs.Call.Block(), idx)
+		here := map[nnKey]bool{}
+		for i, p := range f.Params {
+			if i >= len(cs.Call.Common().Args) {
+				continue
+			}
+			arg := cs.Call.Common().Args[i]
+			for k, v := range st {
+				if v && k.base == arg {
+					here[nnKey{p, k.el}] = true
+				}
+			}
+		}
+		if first {
+			out, first = here, false
+		} else {
+			for k := range out {
+				if !here[k] {
+					delete(out, k)
+				}
+			}
+		}
+	}
+	if first {
+		return map[nnKey]bool{}
+	}
+	return out
+}
+
 func nonNilAnalysis(c *Ctx, f *ssa.Function) *nnResult {
 	return c.Memo("nonnil:"+f.String(), func() interface{} {
 		r := &nnResult{c: c, f: f, in: map[*ssa.BasicBlock]map[nnKey]bool{}, top: map[*ssa.BasicBlock]bool{}}
@@ -957,7 +1194,7 @@ func nonNilAnalysis(c *Ctx, f *ssa.Function) *nnResult {
 			return r
 		}
 		r.top[f.Blocks[0]] = false
-		r.in[f.Blocks[0]] = map[nnKey]bool{}
+		r.in[f.Blocks[0]] = nnEntryFacts(c, f)
 		out := func(b *ssa.BasicBlock, succIdx int) (map[nnKey]bool, bool) {
 			if r.top[b] {
 				return nil, false
